@@ -15,3 +15,5 @@ mod c15_hpack;
 mod c10_tfm;
 #[cfg(all(kani, feature = "p_common"))]
 mod c06_print;
+#[cfg(all(kani, feature = "p_tfm"))]
+mod c17_fixword_print;
